@@ -370,8 +370,15 @@ pub fn cost(rng: &mut StdRng, cmax: u64, scalar_only: bool) -> Value {
         1 => json!({"k": "wcurve", "w": cost_prefix(rng, cmax)}),
         2 => json!({"k": "wxcurve", "of": {"k": "wcurve", "w": cost_prefix(rng, cmax)}}),
         _ => {
-            let w = ["box", "rc", "ref"][rng.gen_range(0..3)];
-            json!({"k": "wrap", "w": w, "of": {"k": "scalar", "c": rng.gen_range(1..=cmax)}})
+            let w = ["box", "rc", "ref", "min", "min"][rng.gen_range(0..5)];
+            let of = if rng.gen_bool(0.5) {
+                json!({"k": "scalar", "c": rng.gen_range(1..=cmax)})
+            } else {
+                let n = rng.gen_range(1..=4);
+                let cs: Vec<u64> = (0..n).map(|_| rng.gen_range(1..=cmax)).collect();
+                json!({"k": "multiframe", "cs": cs})
+            };
+            json!({"k": "wrap", "w": w, "of": of})
         }
     }
 }
